@@ -140,7 +140,9 @@ Definition first_use (v : variant) (fs : list afield) : outcome := process_field
    (-> skipped); no NewType unwrapping here *)
 Inductive defcheck := DSkipped | DOk | DReject (bad : list (pystr * reason)).
 Definition def_bad (vnt : bool) (f : afield) : list (pystr * reason) :=
-  match classify vnt (resolve_deep (af_ty f)) with
+  (* the D14 repair must also unwrap the outermost NewType here, as get_field_types does: otherwise `x: NA`
+     (NA = NewType("NA", A)) would now mention a node, fail is_valid_child_field_type and be rejected *)
+  match classify vnt ((if vnt then unwrap_newtype else fun t => t) (resolve_deep (af_ty f))) with
   | VReject r => [(af_name f, r)]
   | _ => []
   end.
